@@ -349,7 +349,24 @@ pub open spec fn client_small(c: ScramClient) -> bool {
     c.state is ClientFirstSent ==> small(c.state->ClientFirstSent_client_first_message_bare@.len() as int)
 }
 
+impl ScramVersion {
+    /// ScramVersion::client_first_message (`n,,n=<user>,r=<nonce>` and the same without the gs2 header): stand-in
+    #[verifier::external_body]
+    pub fn client_first_message(&self, username: &[u8], nonce: &[u8]) -> (r: (Bytes, Bytes))
+        requires exists|t: Seq<char>| fresh_text(t) && nonce@ == sp_bytes(t),        // [C19.client.scram.fresh-client-nonce] every exchange gets a client nonce drawn for it (32 octets from the random source, when THIS message is computed): a server-first / server-final pair recorded from the genuine server cannot be replayed to a later connection of the same (cloned) profile, because the nonce it answers is never sent again
+        ensures small(r.1@.len() as int),
+    { unimplemented!() }
+}
 impl ScramClient {
+//@@ fn file=fe2o3-amqp/src/auth/scram/client.rs impl=`impl ScramClient` name=compute_client_first_message
+//@@ subst `use base64::Engine;` => `` rule=optional-R6
+//@@ subst `base64::engine::general_purpose::STANDARD.encode(generate_nonce())` => `b64_encode_nonce(generate_nonce())` rule=optional-R9
+//@@ spec
+    ensures final(self).state is ClientFirstSent, client_small(*final(self)),
+        final(self).username == old(self).username, final(self).password == old(self).password, final(self).scram == old(self).scram,
+        exists|t: Seq<char>| fresh_text(t) && final(self).state->ClientFirstSent_client_nonce@ == t,       // [C19.client.scram.nonce-remembered-is-nonce-sent] the nonce the client later checks the server's nonce against is the fresh one it sent
+//@@ end
+
 //@@ fn file=fe2o3-amqp/src/auth/scram/client.rs impl=`impl ScramClient` name=compute_client_final_message
 //@@ qmark
 //@@ spec
